@@ -181,6 +181,9 @@ func (p Pair) Features() []string {
 			for _, c := range t.Cols {
 				if t.InPK(c.Name) {
 					inOrder = append(inOrder, c.Name)
+					if c.Null {
+						f["pk-nullable"] = true
+					}
 				}
 				switch {
 				case c.Default != nil && c.Default.Kind == "expr":
@@ -427,6 +430,14 @@ func shrinkOps(p Pair) []func(*Pair) {
 					onC(func(c *Col, t *Table) {
 						if !t.InPK(c.Name) {
 							c.Null = true
+						}
+					}),
+					onC(func(c *Col, t *Table) { // a single non-integer key -> integer key
+						if t.InPK(c.Name) && len(t.PK) == 1 && !t.Strict && Affinity(c.Type) != "INTEGER" {
+							c.Type = "integer"
+							if c.Default != nil && c.Default.Kind != "expr" {
+								c.Default = DefaultForType("integer", 0)
+							}
 						}
 					}),
 					onC(func(c *Col, t *Table) {
